@@ -36,6 +36,8 @@ type Result struct {
 	Shape      string            `json:"shape,omitempty"` // what made this run distinct/non-trivial
 	Nontrivial bool              `json:"nontrivial"`
 	Infra      string            `json:"infra,omitempty"` // harness trouble (never a verdict)
+	Prelude    bool              `json:"prelude,omitempty"`
+	Shard      int               `json:"shard,omitempty"`
 	Log        []string          `json:"-"`
 	ChoiceVals []int             `json:"-"`
 	Labels     []choice.Rec      `json:"-"`
@@ -59,6 +61,10 @@ type Env struct {
 type Scenario func(e *Env)
 
 var Scenarios = map[string]Scenario{}
+
+// Preludes run once per worker process before the seeded runs, outside any simulation: finite
+// sequential sweeps that need no scheduler. shard selects the slice of the space this process covers.
+var Preludes = map[string]func(tier string, shard int) *Result{}
 
 // progress is read by the real-time watchdog (outside any bubble).
 var curSched *simrt.Sched
